@@ -773,13 +773,8 @@ def corpus():
 
 
 WITNESS_CASES = {
-    'C09_service_atomic_refuted_stale_handle': 'svc_stale_handle',
-    'C09_service_atomic_refuted_long_name': 'svc_long_link_name',
-    'C09_add_link_atomic_refuted': 'link_stale_handle',
     'C09_add_component_atomic_refuted': 'component_same_child_ids',
-    'C09_add_facility_atomic_refuted': 'facility_late_bad_ifname',
     'C09_add_switch_atomic_refuted': 'switch_late_bad_portlabels',
-    'C09_peer_atomic_refuted': 'peer_other_name_taken',
 }
 
 
